@@ -11,7 +11,7 @@ CONSTANTS
   MaxAssets = 2
   MaxAssocs = 2
   MaxAtk = 0
-  MaxH = 4
+  MaxH <- MaxHDef
   MaxMembers = 2
 VIEW StateView
 INVARIANT UniqueIds
